@@ -1,6 +1,6 @@
 CONSTANTS
-  MaxN = 5
-  MaxAr = 2
+  MaxN = 4
+  MaxAr = 3
 INIT Init
 NEXT Next
 INVARIANTS Converse Edges Counts Topo Mat SendConvention
